@@ -1,9 +1,10 @@
 (* C14 — the generic parse tree is lossless. Statements proved here: what the
    checker lossless_b (evaluated on every real tree) means, and the model's
    whitespace-skipping bookkeeping. The round trip as a theorem about the byte
-   level model for ALL inputs is in Proofs/RoundTrip.v when present (see
-   DESIGN.md: partial). *)
-From RV Require Import Model.LR Model.LRBytes Model.CompareBytes Spec.TreeCheck Spec.SpanCheck Proofs.Lossless.
+   level model for ALL inputs is model_roundtrip below (whitespace-skipping
+   mode; the Layout-rule mode is decided by the checker on real trees). *)
+From RV Require Properties.C02.
+From RV Require Import Model.LR Model.LRBytes Model.CompareBytes Spec.TreeCheck Spec.SpanCheck Spec.Validators Proofs.Lossless Proofs.RoundTrip.
 
 Theorem lossless_checker_meaning : forall inp t,
   lossless_b inp t = true ->
@@ -22,9 +23,39 @@ Theorem skip_stores_whitespace_run : forall inp mt cx,
 Proof. exact skip_spec. Qed.
 Print Assumptions skip_stores_whitespace_run.
 
+(* The round trip as a THEOREM about the byte-level model (whitespace skipping
+   or none, no Layout rule): for every grammar/table passing sound_b, every
+   input and every measured recognizer table satisfying mt_ok_b, the tree the
+   model returns is lossless, every stored layout is a maximal whitespace run,
+   and (erasing spans) it is a derivation tree from the start symbol. *)
+Theorem model_roundtrip : forall g T inp mt cfg fuel t,
+  wf_grammar_b g = true -> sound_b g T = true -> mt_ok_b inp mt = true -> bc_has_layout cfg = false ->
+  bparse g T inp mt fuel cfg = BOk t ->
+  lossless_b inp (resolve inp t) = true /\
+  (bc_skip_ws cfg = true -> layout_is_ws_b mt (resolve inp t) = true) /\
+  valid_tree g (erase t) /\ root g (erase t) = g_start g.
+Proof.
+  intros g T inp mt cfg fuel t Hwf Hs Hm Hl H.
+  exact (proj2 (model_tree_ok_main g T inp mt cfg Hwf Hs (mt_ok_b_spec inp mt Hm) Hl fuel t H)).
+Qed.
+Print Assumptions model_roundtrip.
+
 Example lossless_nonvacuous :
   lossless_b [97; 10; 32; 98]
     (RNode 1 (mkSpan (mkPos 0 1 0) (mkPos 4 2 2)) None
        [RLeaf 1 (mkSpan (mkPos 0 1 0) (mkPos 1 1 1)) None [97];
         RLeaf 2 (mkSpan (mkPos 3 2 1) (mkPos 4 2 2)) (Some [10; 32]) [98]]) = true.
 Proof. vm_compute. reflexivity. Qed.
+
+(* Non-vacuity of model_roundtrip: the real table of S: 'a' B 'c'; B: EMPTY|'b';
+   on the input "a c" with its measured recognizer table *)
+Example model_roundtrip_nonvacuous :
+  let inp := [97; 32; 99] in
+  let mt := [(0, (0, [(1, 1)])); (1, (1, [])); (2, (0, [(3, 1)])); (3, (0, [(0, 0)]))] in
+  let cfg := mkCfg false true true false in
+  mt_ok_b inp mt = true /\ sound_b C02.ex_g C02.ex_T = true /\
+  match bparse C02.ex_g C02.ex_T inp mt 30 cfg with
+  | BOk t => lossless_b inp (resolve inp t) && spans_ok_b inp (resolve inp t) = true
+  | _ => False
+  end.
+Proof. vm_compute. repeat split; reflexivity. Qed.
